@@ -64,6 +64,14 @@ def diff_inputs():
     data = ("diff --git a/dir/f.rs b/dir/f.rs\n--- a/dir/f.rs\n+++ b/dir/f.rs\n@@ -98,3 +1000,3 @@ fn f()\n a\n-%s\n+%s y\n b\n"
             % (long, long)).encode()
     out.append(("numbers", data, [{"dir/f.rs"}]))
+    # plain `diff -u` output of several files concatenated: no `diff` line between the files
+    du = ""
+    secs = []
+    for i, nm in enumerate(["one.c", "dir/two.c", "three.c"]):
+        du += "--- %s\t2020-01-01 00:00:00.000000000 +0000\n+++ %s\t2020-01-02 00:00:00.000000000 +0000\n" % (nm, nm)
+        du += "@@ -%d,3 +%d,3 @@\n a\n-b%d\n+c%d\n d\n" % (10 * i + 1, 10 * i + 2, i, i)
+        secs.append({nm})
+    out.append(("diff-u-concatenated", du.encode(), secs))
     # commit line
     data = ("commit %s\nAuthor: A\n\n    msg\n\n" % H40).encode() + out[0][1]
     out.append(("commit+" + out[0][0], data, out[0][2]))
